@@ -114,12 +114,23 @@ func (t *Tree) Canon(defs []meta.Definition, o CanonOpts) string {
 	return sb.String()
 }
 
+// CaseIds lists the cases of a choice in name order, from the choice's case map alone (the
+// library's own CaseIdents accessor is not trusted by the reference models).
+func CaseIds(ch *meta.Choice) []string {
+	var ids []string
+	for id := range ch.Cases() {
+		ids = append(ids, id)
+	}
+	sort.Strings(ids)
+	return ids
+}
+
 // FlatDefs returns the data definitions with choices flattened (all cases).
 func FlatDefs(defs []meta.Definition) []meta.Definition {
 	var out []meta.Definition
 	for _, d := range defs {
 		if ch, ok := d.(*meta.Choice); ok {
-			for _, id := range ch.CaseIdents() {
+			for _, id := range CaseIds(ch) {
 				out = append(out, FlatDefs(ch.Cases()[id].DataDefinitions())...)
 			}
 			continue
